@@ -20,6 +20,8 @@ for sid in sorted(res):
     owner = r.get("property")
     oc = r.get("checks", {}).get(owner, {})
     kind = oc.get("kind") or ("not caught" if oc.get("exit") == 0 else "?")
+    if meta.get("retired"):
+        kind += " (before repair 11e54a8; since then this change no longer breaks the property: retired)"
     inp = ""
     if oc.get("replay"):
         i = oc["replay"].get("input") or oc["replay"].get("what_no_longer_checks") or oc["replay"].get("truncated") or ""
